@@ -925,6 +925,9 @@ class Interp:
             if t is ast.Add:
                 return SymStr(SymStr.of(a).chars + SymStr.of(b).chars)
             raise Unsupported("string operator")
+        if t is ast.Add and (isinstance(a, list) or isinstance(b, list)) and \
+                isinstance(a, (list, bytes, bytearray)) and isinstance(b, (list, bytes, bytearray)):
+            return list(a) + list(b)          # bytes / bytearray model + bytes
         if not is_sym(a) and not is_sym(b):
             if t not in self._CONC:
                 raise Unsupported("operator " + t.__name__)
@@ -1419,6 +1422,10 @@ class Interp:
         if f is str:
             return self.str_of(args[0])
         if f is ord:
+            if isinstance(args[0], list):          # one-byte slice of a bytes model
+                if len(args[0]) != 1:
+                    raise PyRaise(TypeError("ord of %d bytes" % len(args[0])))
+                return args[0][0]
             s = SymStr.of(args[0])
             if len(s) != 1:
                 raise PyRaise(TypeError("ord of a string of length %d" % len(s)))
@@ -1432,12 +1439,12 @@ class Interp:
     def widen8(self, c):
         return z3.ZeroExt(self.bvw - 8, c) if self.num == "bv" and self.bvw > 8 else c
 
-    def digit_char(self, v, base):
+    def digit_char(self, v, base, upper=False):
         """character of digit value v (a BitVec >= 8 bits known to be in [0, base))"""
         lo = z3.Extract(7, 0, v)
         if base <= 10:
             return lo + 48
-        return z3.If(z3.ULT(lo, 10), lo + 48, lo + 87)
+        return z3.If(z3.ULT(lo, 10), lo + 48, lo + (55 if upper else 87))
 
     def str_of(self, v):
         if isinstance(v, (str, SymStr)):
@@ -1478,19 +1485,21 @@ class Interp:
     def str_method(self, recv, m, a, kw):
         if m == "format" and isinstance(recv, str):
             import re
-            mt = re.match(r"^\{0?:(0?)(\d*)x\}$", recv)
+            mt = re.match(r"^\{0?:(0?)(\d*)([xX])\}$", recv)
             if mt and len(a) == 1 and not kw and is_sym(a[0]) and z3.is_bv(a[0]):
                 # hex formatting of a byte: 1 or 2 digits (shape fork on v < 16), padded to the width
                 v = a[0]
                 self.add_side("'%s'.format modelled for 0..255 only" % recv, z3.And(v >= 0, v <= 255))
                 lo8 = z3.Extract(7, 0, v)
                 width = int(mt.group(2) or 0)
+                up = mt.group(3) == "X"
+                hi, lo = self.digit_char(z3.LShR(lo8, 4), 16, up), self.digit_char(lo8 & 15, 16, up)
                 if width >= 2 and mt.group(1) == "0":
-                    digits = [self.digit_char(z3.LShR(lo8, 4), 16), self.digit_char(lo8 & 15, 16)]
+                    digits = [hi, lo]
                 elif self.decide(z3.ULT(lo8, 16)):
-                    digits = [self.digit_char(lo8 & 15, 16)]
+                    digits = [lo]
                 else:
-                    digits = [self.digit_char(z3.LShR(lo8, 4), 16), self.digit_char(lo8 & 15, 16)]
+                    digits = [hi, lo]
                 pad = ["0" if mt.group(1) == "0" else " "] * max(0, width - len(digits))
                 return SymStr(pad + digits)
             raise Unsupported("str.format %r with symbolic arguments" % recv)
